@@ -13,7 +13,7 @@
    the model (this property is PARTIAL by nature).
 
    No proofs here.  The last part is the correspondence entry point run_case_C18. *)
-From SV Require Import Model.Common.
+From SV Require Import Model.Common Model.Metrics.
 Local Open Scope Z_scope.
 
 (* ------------------------------------------------------------------------------------------ *)
@@ -230,7 +230,65 @@ Definition B (p : params) (sh : shape) : Z := B_inputs p sh + B_orch p sh.
 Definition B_client_late (p : params) (sh : shape) : Z := Z.of_nat (n_left sh) * t_send p.
 
 (* ------------------------------------------------------------------------------------------ *)
-(* 3. correspondence                                                                            *)
+(* 3. the client machine (Model/Metrics.v section E) after the stop signal                       *)
+
+(* Which steps of the client machine remain possible once inputClosed has been signalled: Go's select takes a
+   ready case, never "default", and Awaitable.Wait returns at once when the signal is already raised:
+     CRetryElapsed   no: inputClosed.Wait(ForwarderRetryInterval) returns true immediately
+     CRecoveryDone   no: select { inputClosed | leftover | default } has a ready case
+     CReconnect      environment: no SIGUSR1 and no max-duration expiry during the shutdown
+     CTake           only while chunks are left in the closed output channel (budget w)
+     CStop           the signal is raised once *)
+Definition post_stop_ok (w : Z) (e : c_event) : bool :=
+  match e with
+  | CRetryElapsed | CRecoveryDone | CReconnect | CStop => false
+  | CTake _ => 0 <? w
+  | _ => true
+  end.
+
+Definition budget_after (w : Z) (e : c_event) : Z := match e with CTake _ => w - 1 | _ => w end.
+
+(* runs of the client after the stop, with the budget of chunks still in the closed output channel *)
+Fixpoint c_run_stop (cfg : ccfg) (s : cstate) (w : Z) (evs : list c_event) : option (cstate * Z) :=
+  match evs with
+  | [] => Some (s, w)
+  | e :: evs' =>
+    if post_stop_ok w e then
+      match c_step cfg s e with
+      | Some s' => c_run_stop cfg s' (budget_after w e) evs'
+      | None => None
+      end
+    else None
+  end.
+
+(* the variant: stage of the control state, weighted by a bound of the work inside a stage *)
+Definition stage (p : cphase) : Z :=
+  match p with
+  | CCollect (S (S _)) => 8
+  | CIdle => 7
+  | COpening => 6
+  | CRecovery | CNormal | CSending _ | CSent _ => 5
+  | CCollect _ => 4
+  | CRetryWait => 3
+  | CFinal => 2
+  | CStopped => 0
+  end.
+
+Definition phase_work (p : cphase) : Z :=
+  match p with CSending _ => 5 | CSent _ => 4 | _ => 0 end.
+
+Definition acker_work (s : cstate) : Z :=
+  2 * zlen (c_achan s) + match c_acker s with ARun => 2 | AWait _ => 3 | AEnded => 0 end.
+
+Definition inner (s : cstate) (w : Z) : Z :=
+  7 * zlen (c_left s) + 7 * w + phase_work (c_phase s) + acker_work s.
+
+Definition load (s : cstate) (w : Z) : Z := c_holdings s + w.
+
+Definition variant (s : cstate) (w : Z) : Z := stage (c_phase s) * (7 * load s w + 9) + inner s w.
+
+(* ------------------------------------------------------------------------------------------ *)
+(* 4. correspondence                                                                            *)
 
 Definition phase_of (z : Z) : cphase18 :=
   match z with
